@@ -16,6 +16,7 @@ use std::sync::atomic::Ordering;
 
 #[derive(Clone, Debug)]
 pub struct RunCfg {
+    pub path: Option<PathBuf>,
     pub times: u64,
     /// inputs[t][ch]; missing entries are 0.0
     pub inputs: Vec<Vec<f64>>,
@@ -24,7 +25,7 @@ pub struct RunCfg {
 
 impl RunCfg {
     pub fn new(times: u64) -> Self {
-        RunCfg { times, inputs: vec![], scheduler: false }
+        RunCfg { path: None, times, inputs: vec![], scheduler: false }
     }
     fn input_at(&self, t: u64, nin: usize) -> Vec<f64> {
         let mut v = self.inputs.get(t as usize).cloned().unwrap_or_default();
@@ -97,9 +98,14 @@ pub struct VmRun {
 }
 
 pub fn vm_start(src: &str, scheduler: bool) -> Result<VmRun, Vec<String>> {
+    vm_start_at(src, scheduler, None)
+}
+
+/// `path`: the file the source came from (resolves `include`s relative to it)
+pub fn vm_start_at(src: &str, scheduler: bool, path: Option<PathBuf>) -> Result<VmRun, Vec<String>> {
     let driver = LocalBufferDriver::new(0);
     let audiodriverplug: Box<dyn Plugin> = Box::new(driver.get_as_plugin());
-    let mut ctx = ExecContext::new([audiodriverplug].into_iter(), None::<PathBuf>, Config::default());
+    let mut ctx = ExecContext::new([audiodriverplug].into_iter(), path, Config::default());
     if scheduler {
         ctx.add_system_plugin(mimium_scheduler::get_default_scheduler_plugin());
     }
@@ -129,7 +135,7 @@ pub fn run_vm(src: &str, cfg: &RunCfg) -> Outcome {
     let src = src.to_string();
     let cfg = cfg.clone();
     let r = std::panic::catch_unwind(std::panic::AssertUnwindSafe(move || {
-        let mut vm = match vm_start(&src, cfg.scheduler) {
+        let mut vm = match vm_start_at(&src, cfg.scheduler, cfg.path.clone()) {
             Ok(v) => v,
             Err(es) => return Outcome::CompileErr(es),
         };
@@ -162,10 +168,14 @@ pub struct WasmRun {
 }
 
 pub fn wasm_start(src: &str, scheduler: bool) -> Result<WasmRun, Vec<String>> {
+    wasm_start_at(src, scheduler, None)
+}
+
+pub fn wasm_start_at(src: &str, scheduler: bool, path: Option<PathBuf>) -> Result<WasmRun, Vec<String>> {
     use mimium_lang::compiler::wasmgen::WasmGenerator;
     use mimium_lang::runtime::wasm::engine::{WasmDspRuntime, WasmEngine};
     use std::sync::Arc;
-    let mut ctx = ExecContext::new([].into_iter(), None::<PathBuf>, Config::default());
+    let mut ctx = ExecContext::new([].into_iter(), path, Config::default());
     if scheduler {
         ctx.add_system_plugin(mimium_scheduler::get_default_scheduler_plugin());
     }
@@ -208,7 +218,7 @@ pub fn run_wasm(src: &str, cfg: &RunCfg) -> Outcome {
     let src = src.to_string();
     let cfg = cfg.clone();
     let r = std::panic::catch_unwind(std::panic::AssertUnwindSafe(move || {
-        let mut w = match wasm_start(&src, cfg.scheduler) {
+        let mut w = match wasm_start_at(&src, cfg.scheduler, cfg.path.clone()) {
             Ok(v) => v,
             Err(es) => return Outcome::CompileErr(es),
         };
